@@ -32,16 +32,12 @@ def jsuiteV (name : String) (s : Suite) : Val :=
 structure JExt (X : Ext) : Prop where
   helem : ∀ t, X "Element" [.str t] = .ok (elemV t .none)
   hsub : ∀ p t, X "SubElement" [p, .str t] = .ok (elemV t p)
-  hset : ∀ e k v, X ".set" [e, .str k, v] = .ok (setV e k v)
+  hset : ∀ e k v, k ≠ "message" → X ".set" [e, .str k, v] = .ok (setV e k v)
+  /-- a `message` attribute is recorded WITHOUT its text: the wording of the messages is not part of the statement -/
+  hsetm : ∀ e v, X ".set" [e, .str "message", v] = .ok (setV e "message" .none)
   hstr : ∀ v, X "str" [v] = .ok (strV v)
   hrepl : ∀ a b c, X ".replace" [a, b, c] = .ok a
   hrcc : ∀ v, X "remove_color_codes" [v] = .ok v
-
-/-- message of the outcome children of a test of status `st` -/
-def msgOf : TestStatus → Val
-  | .failed => .str "comparison failed"
-  | .skipped => .str "out"
-  | _ => .str "error upon comparison"
 
 /-- the outcome children by status, spelled out (NOT through the table `Gen.cliJunitChildren`, which is regenerated from the same
     source): failed → failure; error → failure and error; skipped → skipped; passed → none -/
@@ -56,7 +52,7 @@ def childrenSpec : TestStatus → List String
 def caseTrace (tree cn : Val) (c : TestCase) (st : TestStatus) : List Val :=
   let tc := elemV "testcase" tree
   [setV tc "name" (.str c.name), setV tc "classname" cn, setV tc "status" (strV (tsV st)), setV tc "time" (.str "n/a")]
-    ++ c.children.map fun ch => setV (elemV ch tc) "message" (msgOf st)
+    ++ c.children.map fun ch => setV (elemV ch tc) "message" .none
 
 /-- the element operations that render a `JSuite` (FcModel/Junit.lean): the count attributes are the model's counts -/
 def headerTrace (tree ts : Val) (j : JSuite) : List Val :=
@@ -82,5 +78,43 @@ theorem sum_ones {α : Type} (l : List α) (p : α → Bool) :
     | zero => intro k; simp
     | succ n ih => intro k; simp [List.replicate_succ, ih]; omega
   simp [builtin, h l 0, hs]
+
+/-- `sum(1 for _ in l)` -/
+theorem sum_all {α : Type} (l : List α) :
+    builtin .sum [.list (l.map fun _ => Val.int 1)] = .ok (.int l.length) := by
+  have h := sum_ones l (fun _ => true)
+  have hf : l.filter (fun _ => true) = l := by induction l with
+    | nil => rfl
+    | cons a r ih => simp
+  rw [hf] at h
+  simpa using h
+
+/-- `sum_ones` for a decidable proposition (the form `simp` normalises `if (x == y) = true` to) -/
+theorem sum_ones_prop {α : Type} (l : List α) (p : α → Prop) [DecidablePred p] :
+    builtin .sum [.list (l.filterMap fun a => if p a then some (Val.int 1) else none)] =
+      .ok (.int (l.filter fun a => decide (p a)).length) := by
+  have h := sum_ones l (fun a => decide (p a))
+  simpa using h
+
+/-- the test of `t.status == TestStatus.<which>` on a presented test -/
+theorem status_eq (t : Test) (which : String) :
+    Val.eqv (tsV t.status) (.enum "TestStatus" which) = some (t.status.name == which) := by
+  simp [tsV, Val.eqv]
+
+section
+variable {X : Ext} (hX : JExt X)
+include hX
+/-! `hset` for the attribute keys the source uses (each is different from "message") -/
+theorem JExt.set_name (e v : Val) : X ".set" [e, .str "name", v] = .ok (setV e "name" v) := hX.hset e _ v (by decide)
+theorem JExt.set_classname (e v : Val) : X ".set" [e, .str "classname", v] = .ok (setV e "classname" v) := hX.hset e _ v (by decide)
+theorem JExt.set_status (e v : Val) : X ".set" [e, .str "status", v] = .ok (setV e "status" v) := hX.hset e _ v (by decide)
+theorem JExt.set_time (e v : Val) : X ".set" [e, .str "time", v] = .ok (setV e "time" v) := hX.hset e _ v (by decide)
+theorem JExt.set_tests (e v : Val) : X ".set" [e, .str "tests", v] = .ok (setV e "tests" v) := hX.hset e _ v (by decide)
+theorem JExt.set_disabled (e v : Val) : X ".set" [e, .str "disabled", v] = .ok (setV e "disabled" v) := hX.hset e _ v (by decide)
+theorem JExt.set_errors (e v : Val) : X ".set" [e, .str "errors", v] = .ok (setV e "errors" v) := hX.hset e _ v (by decide)
+theorem JExt.set_failures (e v : Val) : X ".set" [e, .str "failures", v] = .ok (setV e "failures" v) := hX.hset e _ v (by decide)
+theorem JExt.set_skipped (e v : Val) : X ".set" [e, .str "skipped", v] = .ok (setV e "skipped" v) := hX.hset e _ v (by decide)
+theorem JExt.set_timestamp (e v : Val) : X ".set" [e, .str "timestamp", v] = .ok (setV e "timestamp" v) := hX.hset e _ v (by decide)
+end
 
 end Fc.PyLite.C20O
